@@ -16,6 +16,7 @@ import Driver.Phantoms
 import Driver.Overstatement
 import Driver.SampleSize
 import Driver.Raire
+import Driver.SimpAssertions
 import Driver.AuditLoop
 open Lean Shangrla Shangrla.Drv
 
@@ -34,6 +35,7 @@ def dispatch (g op : String) (a : Json) : R Json :=
   | "overstatement" => OverstatementH.handle op a
   | "samplesize" => SSH.handle op a
   | "raire" => RaireH.handle op a
+  | "simp" => SimpH.handle op a
   | "auditloop" => AuditLoopH.handle op a
   | _ => throw s!"unknown group {g}"
 
